@@ -298,6 +298,56 @@ fn check_empty_order(order: usize, fail_open: bool) -> bool {
     false
 }
 
+/// C02: a No-Code object of `l` bytes (E = 4, B = 8) whose packets carry NO EXT_FTI and ALL arrive, in order, before the FDT (the last one
+/// with the close-object flag when `close` is set): they are cached, and attach_fdt must replay them in their order of arrival -- the
+/// writer sees open, writes, complete
+fn check_all_before_fdt(l: usize, close: bool) -> bool {
+    let calls = Rc::new(std::cell::RefCell::new(Vec::new()));
+    let builder = Rc::new(MonBuilder { calls: calls.clone(), fail_open: false });
+    let endpoint = UDPEndpoint::new(None, "224.0.0.1".to_owned(), 1234);
+    let now = SystemTime::now();
+    let xml = mk_fdt_xml(&AttachIn { check_tl: false, tl: Some(l as u64), cl: Some(l as u64), fec: Some(0), e: 4, b: 8, maxn: None, cenc: 0, pre: 0, inband: false, sbn: 0, esi: 0, plen: 0 });
+    let fdt = crate::common::fdtinstance::FdtInstance::parse(xml.as_bytes()).unwrap();
+    // RFC 5052 partition of T = ceil(l / 4) symbols into N = ceil(T / 8) blocks
+    let t = (l + 3) / 4;
+    let n = (t + 7) / 8;
+    let (a_large, a_small) = ((t + n - 1) / n, t / n);
+    let nb_large = t - a_small * n;
+    let mut pkts: Vec<Vec<u8>> = Vec::new();
+    let mut left = l;
+    for sbn in 0..n {
+        let k = if sbn < nb_large { a_large } else { a_small };
+        for esi in 0..k {
+            let plen = std::cmp::min(4, left);
+            left -= plen;
+            let last = sbn + 1 == n && esi + 1 == k;
+            let mut data = Vec::new();
+            lct::push_lct_header(&mut data, 0, &0u128, 1, &5u128, 0, close && last, false);
+            data.extend((((sbn as u32) << 16) | esi as u32).to_be_bytes());
+            data.extend(vec![0x30u8 + (esi as u8 % 10); plen]);
+            pkts.push(data);
+        }
+    }
+    let final_state;
+    let cached;
+    {
+        let mut rcv = ObjectReceiver::new(&endpoint, 1, &5u128, None, builder, 1 << 20, now);
+        for b in &pkts { rcv.push(&alc::parse_alc_pkt(b).unwrap(), now); }
+        cached = rcv.cache.len();
+        rcv.attach_fdt(7, &fdt, now);
+        final_state = rcv.state;
+    }
+    let c = calls.borrow();
+    let shape_ok = c.len() >= 3 && c[0] == "open" && c[c.len() - 1] == "complete" && c[1..c.len() - 1].iter().all(|x| *x == "write");
+    if !shape_ok || final_state != State::Completed || cached != pkts.len() {
+        report("push_from_cache", format!("{{\"all_before_fdt\":1,\"l\":{},\"close\":{},\"packets\":{}}}", l, close as u8, pkts.len()),
+               format!("{} packets without EXT_FTI pushed in order ({} cached), then attach_fdt: state {:?}, writer saw {:?}", pkts.len(), cached, final_state, *c),
+               "every packet cached, then state Completed and the writer saw open, write(s), complete".to_string());
+        return true;
+    }
+    false
+}
+
 fn num(inp: &str, k: &str) -> usize {
     inp.split(&format!("\"{}\":", k)).nth(1).unwrap().trim().split(|c: char| !c.is_ascii_digit()).next().unwrap().parse().unwrap()
 }
@@ -306,7 +356,8 @@ fn num(inp: &str, k: &str) -> usize {
 fn search() {
     if let Ok(inp) = std::env::var("VERIF_REPLAY_INPUT") {
         std::panic::set_hook(Box::new(|_| {}));
-        let bad = if inp.contains("\"empty_order\"") { check_empty_order(num(&inp, "order"), num(&inp, "fail_open") == 1) }
+        let bad = if inp.contains("\"all_before_fdt\"") { check_all_before_fdt(num(&inp, "l"), num(&inp, "close") == 1) }
+            else if inp.contains("\"empty_order\"") { check_empty_order(num(&inp, "order"), num(&inp, "fail_open") == 1) }
             else if inp.contains("\"attach\"") {
                 let opt = |f: &str, v: &str| if num(&inp, f) == 1 { Some(num(&inp, v) as u64) } else { None };
                 check_attach(&AttachIn { check_tl: num(&inp, "check_tl") == 1, tl: opt("tl_some", "tl"), cl: opt("cl_some", "cl"), fec: if num(&inp, "fec") == 255 { None } else { Some(num(&inp, "fec") as u8) },
@@ -395,6 +446,12 @@ fn search() {
     }
     found += found4;
     found += found3;
+    for l in [16usize, 13, 1, 40, 100] {
+        for close in [false, true] {
+            evals += 1;
+            if check_all_before_fdt(l, close) { found += 1; }
+        }
+    }
     for order in 0..4usize {
         for fail_open in [false, true] {
             evals += 1;
